@@ -174,11 +174,17 @@ Definition wait (w : world) : outc * world :=
   | r => r
   end.
 
-Inductive lop := OIsalive | OWait | OKill (sig : Z) | OTerminate (force : bool) | OClose (force : bool) | OEnv (e : envev).
+(** any read / send / expect on the object: once the object is closed or its descriptor number has been invalidated it fails
+    with an error and touches nothing (what it does on an open object is the business of C06-C08, not modelled here) *)
+Definition io (w : world) : outc * world :=
+  if s_closed (sp w) || negb (s_fd_valid (sp w)) then (RaisePty 3, w) else (RNone, w).
+
+Inductive lop := OIsalive | OWait | OKill (sig : Z) | OTerminate (force : bool) | OClose (force : bool) | OEnv (e : envev) | OIo.
 Definition lstep (w : world) (o : lop) : outc * world :=
   match o with
   | OIsalive => isalive w | OWait => wait w | OKill s => kill w s | OTerminate f => terminate w f | OClose f => close w f
   | OEnv e => (RNone, set_ch w (env1 (ch w) e))
+  | OIo => io w
   end.
 
 Definition world0 (ih ii st : bool) : world :=
